@@ -19,6 +19,8 @@ package reflect
 import (
 	"errors"
 	"unsafe"
+
+	"github.com/cloudwego/frugal/internal/defs"
 )
 
 var mapAppendFuncs = map[struct{ k, v ttype }]appendFuncType{}
@@ -29,7 +31,7 @@ func updateMapAppendFunc(t *tType) {
 	}
 
 	f, ok := mapAppendFuncs[struct{ k, v ttype }{k: t.K.T, v: t.V.T}]
-	if ok {
+	if ok && t.V.Tag != defs.T_binary { // the STRING fast paths range over map[K]string; a []byte value has another layout
 		t.AppendFunc = f
 		return
 	}
